@@ -37,7 +37,11 @@ REACH = {
 
 
 def shards(tier, seed):
-    return [{"seed": seed, "n32": 10000 if tier == "quick" else 300000}]
+    # logging is code: the conversion logs unknown codes, so every logging mode gets the exhaustive part
+    n32 = 10000 if tier == "quick" else 300000
+    return [{"seed": seed, "n32": n32, "debuglog": False},
+            {"seed": seed + 1, "n32": n32 // 10, "debuglog": True},
+            {"seed": seed + 2, "n32": n32 // 10, "debuglog": False, "loglevel": "warning"}]
 
 
 def _one(acc, t, fam, status, case):
@@ -94,19 +98,22 @@ def run_shard(desc) -> Acc:
     acc2 = Acc()
     install_status_contract(acc2)
     for v in range(256):
-        t.sl_Status.from_ember_status(t.EmberStatus(v))
-        t.sl_Status.from_ember_status(t.EzspStatus(v))
+        for cls in (t.EmberStatus, t.EzspStatus):
+            try:
+                t.sl_Status.from_ember_status(cls(v))
+            except Exception:  # noqa: BLE001 - already reported by the direct pass above
+                acc2.contract_evals["from_ember_status"] += 1
     acc.contract_evals.update(acc2.contract_evals)
     if acc2.contract_evals["from_ember_status"] == 512:
         acc.hit("contract_path")
     for v in acc2.violations:
         acc.violation(v["key"], v["msg"], v["case"])
-    acc.sample({"family": "EmberStatus", "value": "0xa1 (NETWORK_BUSY)",
-                "result": repr(t.sl_Status.from_ember_status(t.EmberStatus(0xA1)))})
-    acc.sample({"family": "EzspStatus", "value": "0xee (undefined)",
-                "result": repr(t.sl_Status.from_ember_status(t.EzspStatus(0xEE)))})
-    acc.sample({"family": "sl_Status", "value": "0x12345678 (undefined)",
-                "result": repr(t.sl_Status.from_ember_status(t.sl_Status(0x12345678)))})
+    for fam, v, label in (("EmberStatus", 0xA1, "0xa1 (NETWORK_BUSY)"), ("EzspStatus", 0xEE, "0xee (undefined)"),
+                          ("sl_Status", 0x12345678, "0x12345678 (undefined)")):
+        try:
+            acc.sample({"family": fam, "value": label, "result": repr(t.sl_Status.from_ember_status(getattr(t, fam)(v)))})
+        except Exception as e:  # noqa: BLE001 - reported above
+            acc.sample({"family": fam, "value": label, "result": "raised " + repr(e)})
     return acc
 
 
